@@ -72,7 +72,12 @@ class IndexOperator(AbstractLinearOperator):
             )
         self.unique_indices = unique_indices
         self._in_structure = in_structure
-        self._out_structure = out_structure or AbstractLinearOperator.out_structure(self)
+        if out_structure is None:
+            # inferred without touching `self`, whose fields are not all set yet
+            out_structure = jax.eval_shape(
+                lambda x: jax.tree.map(lambda leaf: leaf[indices], x), in_structure
+            )
+        self._out_structure = out_structure
 
     def mv(self, x: PyTree[Inexact[Array, ' _a']]) -> PyTree[Inexact[Array, ' _b']]:
         return jax.tree.map(lambda leaf: leaf[self.indices], x)
